@@ -214,8 +214,25 @@ def coq_list(items, per_line=8):
     return "[" + ";\n   ".join(out) + "]"
 
 
+COQPROJECT_HEADER = "-R theories GV\n-arg -w -arg -notation-overridden,-deprecated-hint-without-locality,-deprecated-instance-without-locality\n"
+
+
+def ensure_coqproject():
+    """_CoqProject lists every .v file under coq/theories (generated tables included; *_full.v excluded): rewritten
+    whenever the listing changed, so that files generated after setup are known to the makefile"""
+    vs = []
+    for d, _, fs in os.walk(os.path.join(COQ, "theories")):
+        for f in sorted(fs):
+            if f.endswith(".v") and not f.endswith("_full.v"):
+                vs.append(os.path.relpath(os.path.join(d, f), COQ))
+    vs.sort()
+    write_if_changed(os.path.join(COQ, "_CoqProject"), COQPROJECT_HEADER + "\n".join(vs) + "\n")
+    return vs
+
+
 def coq_make(targets, timeout=1500):
     """make the given .vo targets (paths relative to coq/); returns (ok, log)"""
+    ensure_coqproject()
     mk, pj = os.path.join(COQ, "Makefile"), os.path.join(COQ, "_CoqProject")
     if not os.path.exists(mk) or os.path.getmtime(pj) > os.path.getmtime(mk):
         p = run(["coq_makefile", "-f", "_CoqProject", "-o", "Makefile"], cwd=COQ, timeout=120)
